@@ -100,17 +100,31 @@ theorem processSel_vars {rec : Cfg → St → Except Err (List Sel × St)} (hrec
       split at h
       · cases h
       · rename_i sub' st1 hr
-        cases h
         obtain ⟨m, u, c⟩ := hrec _ _ _ _ hr
         simp only at m c
-        refine ⟨?_, ?_, ?_⟩
-        · intro v hv; exact m v (by simp only [List.mem_append]; exact Or.inl hv)
-        · intro v hv
-          simp only [usedSel] at hv
-          exact m v (by simp only [List.mem_append]; exact Or.inr hv)
-        · intro hc
-          exact fragsCovered_putFrag (d := ⟨name, defn.cond, defn.dirs, sub'⟩) u
-            (c (fragsCovered_mono (by intro v hv; simp only [List.mem_append]; exact Or.inl hv) hc))
+        have hdirs : ∀ v ∈ dirVars dirs, v ∈ st1.vars := fun v hv => m v (by simp only [List.mem_append]; exact Or.inr hv)
+        have hold : FragsCovered st.frags st.vars → FragsCovered st1.frags st1.vars := fun hc =>
+          c (fragsCovered_mono (by intro v hv; simp only [List.mem_append]; exact Or.inl hv) hc)
+        split at h
+        · cases h
+          refine ⟨fun v hv => m v (by simp only [List.mem_append]; exact Or.inl hv), ?_, ?_⟩
+          · intro v hv; simp only [usedSel] at hv; exact hdirs v hv
+          · intro hc f hf
+            rcases List.mem_append.1 hf with hf | hf
+            · exact hold hc f hf
+            · have : f = _ := List.mem_singleton.1 hf
+              subst this; exact u
+        · split at h
+          · cases h
+            refine ⟨fun v hv => m v (by simp only [List.mem_append]; exact Or.inl hv), ?_, hold⟩
+            intro v hv; simp only [usedSel] at hv; exact hdirs v hv
+          · cases h
+            refine ⟨fun v hv => m v (by simp only [List.mem_append]; exact Or.inl hv), ?_, hold⟩
+            intro v hv
+            simp only [usedSel, List.mem_append] at hv
+            rcases hv with hv | hv
+            · exact hdirs v hv
+            · exact u v hv
   | inline cond dirs sub =>
     simp only [processSel] at h
     split at h
